@@ -3,9 +3,11 @@
 
    Memory is a heap of 8-slot buckets addressed by N (0 = nil); a bucket array
    is a run of consecutive addresses (pointer arithmetic add(buckets, i*size)
-   becomes base + i).  The heap is never cleared: llgo's memclrNoHeapPointers
-   and memclrHasPointers are empty functions (stubs.go), so a reused bucket
-   array keeps its key/elem data and its overflow links.
+   becomes base + i).  memclrNoHeapPointers / memclrHasPointers (stubs.go) clear
+   memory; they used to be empty functions, so that a bucket array reused by
+   mapclear kept its key/elem data and its overflow links: that behaviour is
+   still reachable through the flag [memclr] = false of the map type (it is what
+   the refutation in Props.v is about).
 
    Keys are 64-bit numbers that carry their own hash (the harness installs the
    same hasher in its hand-built maptype):
@@ -98,7 +100,9 @@ Definition tophash (hash : N) : N :=
   let t := hash / 72057594037927936 in if t <? minTopHash then t + minTopHash else t.
 
 (* maptype flags that matter *)
-Record mtype := mkT { reflexive : bool; needkeyupdate : bool }.
+(* memclr    : the memclr functions really clear (false = the empty stubs of the original tree)
+   ptrbucket : t.Bucket.PtrBytes != 0 (evacuate then wipes an old bucket nobody iterates) *)
+Record mtype := mkT { reflexive : bool; needkeyupdate : bool; memclr : bool; ptrbucket : bool }.
 
 Record hmap := mkH {
   count : N; flags : N; hB : N; noverflow : N; hash0 : N;
@@ -124,12 +128,16 @@ Arguments Ok {A} a. Arguments Hang {A}.
 Definition bind {A B} (r : res A) (f : A -> res B) : res B :=
   match r with Ok a => f a | Hang => Hang end.
 
-(* makeBucketArray: b, dirtyalloc (0 = allocate); roundupsize is the identity
-   and nothing is cleared.  Returns (buckets, nextOverflow). *)
-Definition makeBucketArray (m : mem) (b dirty : N) : N * N * mem :=
+Fixpoint clear_range (n : nat) (m : mem) (a : N) : mem :=
+  match n with O => m | S n' => clear_range n' (setb m a zerob) (a + 1) end.
+
+(* makeBucketArray: b, dirtyalloc (0 = allocate); roundupsize is the identity; a reused
+   array is wiped when [clr] is set.  Returns (buckets, nextOverflow). *)
+Definition makeBucketArray (clr : bool) (m : mem) (b dirty : N) : N * N * mem :=
   let base := bshift b in
   let nb := if 4 <=? b then base + bshift (b - 4) else base in
-  let '(arr, m1) := if dirty =? 0 then alloc m nb else (dirty, m) in
+  let '(arr, m1) := if dirty =? 0 then alloc m nb
+                    else (dirty, if clr then clear_range (N.to_nat nb) m dirty else m) in
   if base =? nb then (arr, 0, m1)
   else (arr, arr + base, set_ovf m1 (arr + nb - 1) arr).
 
@@ -139,7 +147,7 @@ Definition makemap (m : mem) (hint : N) : hmap * mem :=
     match fuel with O => b | S f => if overLoadFactor hint b then findB f (b + 1) else b end in
   let b := findB 64%nat 0 in
   if b =? 0 then (mkH 0 0 0 0 h0 0 0 0 0, m1)
-  else let '(arr, nx, m2) := makeBucketArray m1 b 0 in (mkH 0 0 b 0 h0 arr 0 0 nx, m2).
+  else let '(arr, nx, m2) := makeBucketArray false m1 b 0 in (mkH 0 0 b 0 h0 arr 0 0 nx, m2).
 
 (* h.newoverflow(t, b): returns the new bucket *)
 Definition newoverflow (h : hmap) (m : mem) (b : N) : N * hmap * mem :=
@@ -265,7 +273,12 @@ Definition evacuate (fuel : nat) (h : hmap) (m : mem) (oldbucket : N) : res (hma
   let b := oldbuckets h + oldbucket in
   let newbit := noldbuckets h in
   bind (if evacuated m b then Ok (h, m)
-        else evac_chain fuel h m b (mkD (buckets h + oldbucket) 0) (mkD (buckets h + oldbucket + newbit) 0))
+        else bind (evac_chain fuel h m b (mkD (buckets h + oldbucket) 0) (mkD (buckets h + oldbucket + newbit) 0))
+             (fun hm => let (h1, m1) := hm in
+              (* unlink the overflow buckets and clear key/elem: tophash is kept *)
+              if negb (has (flags h1) fOldIterator) && ptrbucket T && memclr T
+              then Ok (h1, setb m1 b (mkB (tops (getb m1 b)) zeros8 zeros8 0))
+              else Ok (h1, m1)))
   (fun hm => let (h1, m1) := hm in
      Ok (if oldbucket =? nevacuate h1 then advanceEvacuationMark fuel h1 m1 newbit else h1, m1)).
 
@@ -277,7 +290,7 @@ Definition hashGrow (h : hmap) (m : mem) : hmap * mem :=
   let over := overLoadFactor (count h + 1) (hB h) in
   let bigger := if over then 1 else 0 in
   let fl0 := if over then flags h else N.lor (flags h) fSameSizeGrow in
-  let '(arr, nx, m1) := makeBucketArray m (hB h + bigger) 0 in
+  let '(arr, nx, m1) := makeBucketArray false m (hB h + bigger) 0 in
   let fl1 := N.land fl0 (N.lxor 255 (fIterator + fOldIterator)) in
   let fl2 := if has fl0 fIterator then N.lor fl1 fOldIterator else fl1 in
   (mkH (count h) fl2 (hB h + bigger) 0 (hash0 h) arr (buckets h) 0
@@ -377,7 +390,7 @@ Definition mapdelete (fuel : nat) (h : hmap) (m : mem) (k : N) : res (hmap * mem
   match r with
   | None => Ok (h1, m2)
   | Some (b, i) =>
-    let m3 := set_top m2 b i emptyOne in
+    let m3 := set_top (if memclr T then set_val m2 b i 0 else m2) b i emptyOne in
     let last :=
       if i =? 7 then
         let o := ovf (getb m3 b) in (o =? 0) || (top_at m3 o 0 =? emptyRest)
@@ -410,7 +423,7 @@ Definition mapclear (fuel : nat) (h : hmap) (m : mem) : res (hmap * mem) :=
   bind (mark_buckets (N.to_nat (bshift (hB h))) fuel m (buckets h) 0) (fun m1 =>
   bind (if growing h then mark_buckets (N.to_nat (noldbuckets h)) fuel m1 (oldbuckets h) 0 else Ok m1) (fun m2 =>
   let (h0, m3) := fastrand m2 in
-  let '(_, nx, m4) := makeBucketArray m3 (hB h) (buckets h) in
+  let '(_, nx, m4) := makeBucketArray (memclr T) m3 (hB h) (buckets h) in
   Ok (mkH 0 (N.land (flags h) (N.lxor 255 fSameSizeGrow)) (hB h) 0 h0 (buckets h) 0 0 nx, m4))).
 
 (* ---------- iterators ---------- *)
@@ -582,7 +595,7 @@ Definition step (T : mtype) (fuel : nat) (w : world) (o : op) : res (list N * wo
     bind (mapdelete T fuel h m k) (fun r => let (h1, m1) := r in Ok ([], mkW m1 (Some h1) (wits w)))
   | OClear, None => Ok ([], w)
   | OClear, Some h =>
-    bind (mapclear fuel h m) (fun r => let (h1, m1) := r in Ok ([], mkW m1 (Some h1) (wits w)))
+    bind (mapclear T fuel h m) (fun r => let (h1, m1) := r in Ok ([], mkW m1 (Some h1) (wits w)))
   | OLen, None => Ok ([0], w)
   | OLen, Some h => Ok ([count h], w)
   | OIterNew s, oh =>
@@ -610,7 +623,8 @@ Fixpoint run_ops (T : mtype) (fuel : nat) (w : world) (ops : list op) : list (li
   end.
 
 (* configuration of one history *)
-Record config := mkC { c_nil : bool; c_hint : N; c_refl : bool; c_upd : bool; c_seed : N }.
+Record config := mkC { c_nil : bool; c_hint : N; c_refl : bool; c_upd : bool; c_seed : N;
+                       c_memclr : bool; c_ptr : bool }.
 
 Definition init_world (c : config) : world :=
   let m0 := mkM (PositiveMap.empty bucket) 2 (c_seed c) false in
@@ -619,7 +633,7 @@ Definition init_world (c : config) : world :=
 
 Definition run_history (x : config * list op) : list (list N) :=
   let fuel := N.to_nat 65536 in
-  run_ops (mkT (c_refl (fst x)) (c_upd (fst x))) fuel (init_world (fst x)) (snd x).
+  run_ops (mkT (c_refl (fst x)) (c_upd (fst x)) (c_memclr (fst x)) (c_ptr (fst x))) fuel (init_world (fst x)) (snd x).
 
 Definition trace_eqb : list (list N) -> list (list N) -> bool := list_eqb (list_eqb N.eqb).
 
